@@ -355,7 +355,7 @@ Lemma lookup_keeps_state qs obj st : is_lookup st = true -> snd (fstep_run qs ob
 Proof.
   intros H. unfold fstep_run. destruct (nth_error qs (Nat.modulo obj (length qs))) as [q|] eqn:Hq; [|reflexivity].
   destruct st as [h|e|n|ns|n|ns|ix u sp fi gap]; cbn in H; try discriminate; try reflexivity.
-  - destruct h as [w u sp fi gap inplace| | | | | | |]; try discriminate.
+  - destruct h as [w u sp fi gap inplace| | | | | | | | | |]; try discriminate.
     apply andb_true_iff in H as [Hi Hw]. apply negb_true_iff in Hi. subst inplace.
     pose proof (build_win_not_rc w Hw) as Hb. cbn.
     destruct (build_win w) as [[win|]|e] eqn:E; cbn.
@@ -461,4 +461,41 @@ Proof.
   - reflexivity.
   - destruct (build_fts fs) as [r|]; cbn; [|lia].
     rewrite (Permutation_length (sort_gen_perm ft_pos_lt (l ++ r))), app_length. lia.
+Qed.
+
+(* ------------------------------------------------------------------ the in-place str methods of the history language *)
+Lemma lstrip_chars_spec chars s :
+  exists pre, s = pre ++ lstrip_chars chars s /\ forallb (fun c => has c chars) pre = true /\
+              match lstrip_chars chars s with c :: _ => has c chars = false | [] => True end.
+Proof.
+  induction s as [|c r IH]; cbn.
+  - exists []. repeat split.
+  - destruct (has c chars) eqn:E.
+    + destruct IH as (pre & Hs & Hp & Hh). exists (c :: pre). cbn. rewrite E. repeat split; [f_equal; exact Hs|exact Hp|exact Hh].
+    + exists []. repeat split. exact E.
+Qed.
+(* upper / lower / swapcase keep the length (so the features stay where they were); replacing a character by a character is a map;
+   replacing an absent character changes nothing; lstrip / rstrip remove exactly the longest prefix / suffix made of chars *)
+Theorem str_methods_spec chars c new s :
+  (length (upper s) = length s /\ length (lower s) = length s /\ length (map swap1 s) = length s) /\
+  (forall d, replace1 c [d] s = map (fun x => if byte_eqb x c then d else x) s) /\
+  (has c s = false -> replace1 c new s = s) /\
+  (exists pre, s = pre ++ lstrip_chars chars s /\ forallb (fun x => has x chars) pre = true /\
+               match lstrip_chars chars s with x :: _ => has x chars = false | [] => True end) /\
+  (exists suf, s = rstrip_chars chars s ++ suf /\ forallb (fun x => has x chars) suf = true /\
+               match rev (rstrip_chars chars s) with x :: _ => has x chars = false | [] => True end).
+Proof.
+  split; [unfold upper, lower; rewrite !map_length; repeat split|].
+  split; [intros d; unfold replace1; induction s as [|x r IH]; cbn; [reflexivity|rewrite IH; destruct (byte_eqb x c); reflexivity]|].
+  split.
+  { unfold replace1, has. induction s as [|x r IH]; cbn; [reflexivity|].
+    intros H. apply orb_false_iff in H as [H1 H2]. rewrite (IH H2).
+    destruct (byte_eqb x c) eqn:E; [|reflexivity].
+    apply byte_eqb_eq in E. subst x. rewrite (proj2 (byte_eqb_eq c c) eq_refl) in H1. discriminate. }
+  split; [apply lstrip_chars_spec|].
+  unfold rstrip_chars. destruct (lstrip_chars_spec chars (rev s)) as (pre & Hs & Hp & Hh).
+  exists (rev pre). split; [|split].
+  - rewrite <- rev_app_distr, <- Hs, rev_involutive. reflexivity.
+  - rewrite forallb_forall in *. intros x Hx. apply Hp, in_rev, Hx.
+  - rewrite rev_involutive. exact Hh.
 Qed.
